@@ -217,10 +217,37 @@ dump_json_kwargs = {
 }
 
 
+yaml_default_dumper = None
+
+
+def get_yaml_default_dumper():
+    global yaml_default_dumper
+    if yaml_default_dumper:
+        return yaml_default_dumper
+
+    import yaml
+
+    class DefaultDumper(yaml.SafeDumper):
+        pass
+
+    # strings that the default loader would resolve as float must be quoted
+    loader = get_yaml_default_loader()
+    DefaultDumper.yaml_implicit_resolvers = {
+        k: list(v) for k, v in yaml.SafeDumper.yaml_implicit_resolvers.items()
+    }
+    for first_letter, mappings in loader.yaml_implicit_resolvers.items():
+        for tag, regexp in mappings:
+            if tag == "tag:yaml.org,2002:float":
+                DefaultDumper.yaml_implicit_resolvers.setdefault(first_letter, []).append((tag, regexp))
+
+    yaml_default_dumper = DefaultDumper
+    return yaml_default_dumper
+
+
 def yaml_dump(data):
     import yaml
 
-    return yaml.safe_dump(data, **dump_yaml_kwargs)
+    return yaml.dump(data, Dumper=get_yaml_default_dumper(), **dump_yaml_kwargs)
 
 
 def yaml_comments_dump(data, parser):
